@@ -1,4 +1,5 @@
 import BpProofs.SrcTie
+import BpProofs.SrcTieLoad
 import BpProofs.Props.C17
 /-
   C17, tied to the SOURCE: `load_fields` (the framing generator every decode path goes
@@ -6,6 +7,9 @@ import BpProofs.Props.C17
   (harness/extract_src.py → BpProofs/Gen/SrcCodec.lean) are the model's `loadFields`.
   A generator is translated as the function that runs it to the end: it returns the list
   of values yielded and what is left of the stream, or raises.
+  The per-record step of `Message.load` (harness/extract_srcload.py → BpProofs/Gen/SrcLoad.lean,
+  `Src.load_record`, proved equal to the model's `applyField` in BpProofs/SrcTieLoad.lean; see
+  Props/C02Src.lean for the reading) gives the source-level form of `mismatch_is_unknown`.
 -/
 namespace Bp.C17
 open Bp Bp.Py Gen
@@ -77,5 +81,33 @@ theorem src_invalid_tag_rejected (bs : Bytes) (hw : WfBytes bs) (fuel : Nat) (hf
   have hne : bs ≠ [] := by
     intro hc; subst hc; exact loadVarint_nil_ne_ok _ _ h
   rw [src_load_fields bs hw fuel hf, loadFields_cons_err bs .value hne (invalid_tag_rejected bs nw k h hbad)]
+
+/-- **a known field number with a wire type that does not fit the declared type only appends its raw bytes
+    to the unknown fields — in the source as written**: one iteration of the record loop of `Message.load`
+    for such a record leaves every slot, the oneof selection and the presence flag as they were (no default
+    is materialised, no member is selected, nothing is decoded) -/
+theorem src_mismatch_is_unknown (S : Schema) (rec : Loader) (d : MsgD) (st : MState) (pf : PField)
+    (idx : Nat) (f : FieldD) (hidx : findField d.fields pf.num = some idx) (hf : d.fields[idx]? = some f)
+    (hmis : wireFits f pf.wt = false) (fuel : Nat) (hok : SrcTieLoad.RecOk fuel pf) :
+    Src.load_record fuel S rec d st pf = .ok { st with unknown := st.unknown ++ pf.raw } := by
+  rw [SrcTieLoad.load_record_eq S rec d st pf hok.1 fuel hok.2, mismatch_is_unknown S rec d st pf idx f hidx hf hmis]
+  rfl
+
+/-- … and a record whose wire type fits is never put there by the source as written: whenever the iteration
+    succeeds, the unknown fields are what they were -/
+theorem src_fitting_not_unknown (S : Schema) (rec : Loader) (d : MsgD) (st st' : MState) (pf : PField)
+    (idx : Nat) (f : FieldD) (hidx : findField d.fields pf.num = some idx) (hf : d.fields[idx]? = some f)
+    (hfit : wireFits f pf.wt = true) (fuel : Nat) (hok : SrcTieLoad.RecOk fuel pf)
+    (h : Src.load_record fuel S rec d st pf = .ok st') : st'.unknown = st.unknown := by
+  rw [SrcTieLoad.load_record_eq S rec d st pf hok.1 fuel hok.2] at h
+  cases ha : applyField S rec d st pf with
+  | error e => rw [ha] at h; cases h
+  | ok s =>
+    rw [ha] at h
+    injection h with h
+    subst h
+    have hk : isUnknownField d pf = false := by simp [isUnknownField, hidx, hf, hfit]
+    have := applyField_known S rec d st s pf hk ha st.unknown
+    exact this.1
 
 end Bp.C17
